@@ -54,6 +54,9 @@ type Round struct {
 	PerClient   int   `json:"perClient"`
 	ShutdownAt  int   `json:"shutdownAt"` // after this many submissions in total (-1 = only at the end)
 	TransportOk bool  `json:"transportOk"`
+	// Idle: a quiet server (long signal timeout, generous queues); each request arrives while the loop sleeps and
+	// shutdown is requested right behind the last one - accepted requests must still be answered
+	Idle bool `json:"idle,omitempty"`
 }
 
 type okPlugin struct {
@@ -77,6 +80,12 @@ func drawRound(r *rand.Rand) Round {
 		Clients: small(1, 2, 4, 8), PerClient: small(3, 6, 12), ShutdownAt: -1, TransportOk: r.Intn(4) != 0}
 	if r.Intn(2) == 0 {
 		rd.ShutdownAt = r.Intn(rd.Clients*rd.PerClient + 1)
+	}
+	if r.Intn(3) == 0 {
+		rd.Idle = true
+		rd.ApiSize, rd.CqSize, rd.Pool, rd.SubBatch, rd.CplBatch = 10, 10, 10, 10, 10
+		rd.Clients, rd.PerClient = 1, small(1, 1, 2, 3)
+		rd.ShutdownAt = rd.Clients * rd.PerClient
 	}
 	return rd
 }
@@ -108,6 +117,9 @@ func runRound(rd Round, dir string) M {
 	ap := api.New(rd.ApiSize, reg)
 	sc := &system.Config{Url: "http://r", CoroutineMaxSize: rd.Pool, SubmissionBatchSize: rd.SubBatch, CompletionBatchSize: rd.CplBatch,
 		PromiseBatchSize: 2, ScheduleBatchSize: 2, TaskBatchSize: 2, TaskEnqueueDelay: 5 * time.Millisecond, SignalTimeout: 2 * time.Millisecond}
+	if rd.Idle {
+		sc.SignalTimeout = 150 * time.Millisecond
+	}
 	s := system.New(ap, a, sc, reg)
 	s.AddOnRequest(t_api.ReadPromise, coroutines.ReadPromise)
 	s.AddOnRequest(t_api.SearchPromises, coroutines.SearchPromises)
@@ -158,6 +170,9 @@ func runRound(rd Round, dir string) M {
 			for k := 0; k < rd.PerClient; k++ {
 				tid := fmt.Sprintf("c%d.%d", c, k)
 				rq := g.Request(tid, time.Now().UnixMilli(), kinds, nil, 50)
+				if rd.Idle {
+					time.Sleep(time.Duration(10+g.R.Intn(15)) * time.Millisecond) // let the loop go to sleep
+				}
 				mu.Lock()
 				submitted++
 				n := submitted
